@@ -35,12 +35,19 @@ def _clamp_slice(lo, hi, n):
     return a, z3.simplify(z3.If(b > a, b - a, z3.IntVal(0)))
 
 
+def need_rank(ex, state, arr, line):
+    """an array taken from a list has a symbolic rank: using it as an n-d array needs rank == number of tracked dims"""
+    if isinstance(arr, SArr) and not is_conc_int(arr.ndim):
+        ex.ctx.oblige(state, 'array-rank', line, zi(arr.ndim) == len(arr.shape), 'array rank is not %d' % len(arr.shape))
+        return arr.with_(ndim=len(arr.shape))
+    return arr
+
+
 def getitem(ex, state, arr, idx, line, for_store=False):
     """basic + advanced indexing.  Returns the selected sub-array (a view for basic indexing, a fresh array otherwise)."""
     if not isinstance(idx, tuple) or (idx and idx[0] == 'slice'):
         idx = (idx,)
-    if not is_conc_int(arr.ndim):
-        raise Unsupported('indexing an array of unknown rank at line %d' % line)
+    arr = need_rank(ex, state, arr, line)
     n_real = sum(1 for i in idx if not isinstance(i, SNone))
     if n_real > len(arr.shape):
         ex.ctx.oblige(state, 'index-rank', line, False, 'too many indices')
@@ -180,6 +187,7 @@ def oblige_broadcast_into(ex, state, src, dst, line):
 
 
 def elementwise(ex, state, operands, line):
+    operands = [need_rank(ex, state, o, line) for o in operands]
     arrs = [o for o in operands if isinstance(o, SArr)]
     shape = []
     for a in arrs:
@@ -192,15 +200,18 @@ def elementwise(ex, state, operands, line):
 
 
 def conj(ex, state, a, line):
+    a = need_rank(ex, state, a, line)
     return new_arr(state, a.shape, a.cplx)
 
 
 def copy(ex, state, a, line):
+    a = need_rank(ex, state, a, line)
     r = new_arr(state, a.shape, a.cplx, a.kind, flags=dict(a.flags))
     return r
 
 
 def transpose(ex, state, a, axes, line):
+    a = need_rank(ex, state, a, line)
     nd = len(a.shape)
     if axes is None:
         axes = list(range(nd))[::-1]
@@ -218,6 +229,7 @@ def transpose(ex, state, a, axes, line):
 
 
 def reshape(ex, state, a, newshape, line):
+    a = need_rank(ex, state, a, line)
     if isinstance(newshape, SList):
         if newshape.items is None:
             raise Unsupported('reshape to a list of symbolic length at line %d' % line)
@@ -241,6 +253,7 @@ def reshape(ex, state, a, newshape, line):
 
 
 def tensordot(ex, state, a, b, axes, line):
+    a, b = need_rank(ex, state, a, line), need_rank(ex, state, b, line)
     def norm_axes(x, nd):
         if isinstance(x, SList):
             x = x.items
@@ -278,6 +291,7 @@ def tensordot(ex, state, a, b, axes, line):
 
 
 def dot(ex, state, a, b, line):
+    a, b = need_rank(ex, state, a, line), need_rank(ex, state, b, line)
     if len(a.shape) == 0 or len(b.shape) == 0:
         return elementwise(ex, state, [a, b], line)
     if len(b.shape) == 1:
@@ -291,6 +305,7 @@ def dot(ex, state, a, b, line):
 
 
 def matmul(ex, state, a, b, line):
+    a, b = need_rank(ex, state, a, line), need_rank(ex, state, b, line)
     if not (isinstance(a, SArr) and isinstance(b, SArr)):
         raise Unsupported('matmul with a non-array at line %d' % line)
     if len(a.shape) < 2 or len(b.shape) < 2:
@@ -307,6 +322,7 @@ def matmul(ex, state, a, b, line):
 
 
 def diag(ex, state, a, line):
+    a = need_rank(ex, state, a, line)
     if len(a.shape) == 1:
         return new_arr(state, [a.shape[0], a.shape[0]], a.cplx)
     if len(a.shape) == 2:
